@@ -850,21 +850,25 @@ def run(ctx):
                     obj = D.Gaussian(mu, cov=C)
                 Pd = np.linalg.inv(C)
                 predict = lambda x, d_, mu=mu, Pd=Pd: -(Pd @ (x - mu))
+                lean_line = lambda x, d_, mu=mu, C=C: (f"gauss cov {qv(x)} {qv(mu)} {qm(C)}", 2)
             elif fam == "cauchy":
                 sc = rng.choice([0.5, 1.0, 2.0])
                 with quiet():
                     obj = D.Cauchy(mu, sc)
                 predict = lambda x, d_, mu=mu, sc=sc: -2 * (x - mu) / (sc ** 2 * (1 + ((x - mu) / sc) ** 2))
+                lean_line = lambda x, d_, mu=mu, sc=sc: (f"iid cauchy {qv(x)} {qv(mu)} {q(sc)} _", 2)
             else:
                 pr = rng.choice([0.5, 1.0, 2.0])
                 with quiet():
                     obj = D.GMRF(mu, pr)
                     Pop = np.asarray(obj._prec_op.get_matrix().todense())
                 predict = lambda x, d_, mu=mu, pr=pr, Pop=Pop: -(pr * Pop) @ (x - mu)
+                lean_line = lambda x, d_, mu=mu, pr=pr, n=n: (f"gmrf 1 1 zero {n} {q(pr)} {qv(x)} {qv(mu)}", 2)
             call = lambda x, d_, obj=obj: obj.gradient(x)
             scalar = lambda x, d_, obj=obj: float(obj.logd(x))
             side_logd = lambda x, obj=obj: obj.logd(x)
             side_fwd = side_logd
+            extra = lambda x: np.zeros(len(x))
             mk = fam; mapped = False; dgk = "id"
         else:
             dgeo = geom(dg, n); dgk = GKIND[dg]
@@ -897,8 +901,12 @@ def run(ctx):
             zmap = (lambda x: x ** 2) if mapped else (lambda x: x)
             gmap = (lambda x: 2 * x) if mapped else (lambda x: np.ones_like(x))
             vjp_ = lambda x, dirv, J=J, zmap=zmap, gmap=gmap: gmap(x) * (np.atleast_2d(J(zmap(x))).T @ dirv)
+            Gq = (lambda x: qm(np.diag(2 * x))) if mapped else (lambda x: "_")
+            extra = lambda x: np.zeros(len(x))
             if kind == "model":
                 predict = lambda x, d_, vjp_=vjp_: vjp_(x, d_)
+                lean_line = lambda x, d_, J=J, zmap=zmap, Gq=Gq, m=m: (
+                    f"lik {qv(d_)} {qm(np.atleast_2d(J(zmap(x))))} {qm(np.eye(m))} {Gq(x)}", 1)
                 call = lambda x, d_, mod=mod: mod.gradient(d_, x)
                 scalar = lambda x, d_, mod=mod: float(np.dot(d_, np.asarray(mod.forward(x), dtype=float).ravel()))
                 side_logd = lambda x, mod=mod: mod.forward(x)
@@ -910,6 +918,8 @@ def run(ctx):
                     ydist = D.Gaussian(mod, cov=(cv if m > 1 else float(cv[0])))
                     lik = ydist.to_likelihood(data)
                 lpred = lambda x, d_, F=F, zmap=zmap, vjp_=vjp_, data=data, cv=cv: vjp_(x, (data - F(zmap(x))) / cv)
+                lean_line = lambda x, d_, F=F, J=J, zmap=zmap, Gq=Gq, data=data, cv=cv: (
+                    f"lik {qv(data - F(zmap(x)))} {qm(np.atleast_2d(J(zmap(x))))} {qm(np.diag(1.0 / cv))} {Gq(x)}", 1)
                 if kind == "likelihood":
                     obj = lik; predict = lpred
                 elif kind == "posterior":
@@ -917,6 +927,7 @@ def run(ctx):
                     with quiet():
                         obj = D.Posterior(lik, D.Gaussian(pm_, pc, geometry=dgeo))
                     predict = lambda x, d_, lpred=lpred, pm_=pm_, pc=pc: lpred(x, d_) - (x - pm_) / pc
+                    extra = lambda x, pm_=pm_, pc=pc: -(x - pm_) / pc
                 else:
                     A2 = np.array([[rng.randint(-2, 2) for _ in range(n)]], dtype=float); d2 = np.array([dy(rng, -2, 2)])
                     with quiet():
@@ -926,6 +937,7 @@ def run(ctx):
                         obj = D.JointDistribution(xx, y1, y2)(y1=data, y2=d2)
                     predict = lambda x, d_, lpred=lpred, A2=A2, d2=d2, zmap=zmap, gmap=gmap: (
                         lpred(x, d_) - x / 2.0 + gmap(x) * (A2.T @ ((d2 - A2 @ zmap(x)) / 0.5)))
+                    extra = lambda x, A2=A2, d2=d2, zmap=zmap, gmap=gmap: -x / 2.0 + gmap(x) * (A2.T @ ((d2 - A2 @ zmap(x)) / 0.5))
                 call = lambda x, d_, obj=obj: obj.gradient(x)
                 scalar = lambda x, d_, obj=obj: float(obj.logd(x))
                 side_logd = lambda x, obj=obj: obj.logd(x)
@@ -972,8 +984,18 @@ def run(ctx):
             if not cmp_vec(pred.tolist(), val.tolist(), 1e-8):
                 ctx.disagree(key, desc, pred.tolist(), val.tolist(),
                              "gradient differs from the (pure) model at the point's current value")
+            ln, tokidx = lean_line(xv, dv)
+            hlines.append(ln); hmeta.append((key, desc, tokidx, extra(xv), val))
             hist.append((key, desc, scalar, xv, dv, val, mapped))
     # oracle after the histories (fresh arrays; the objects' logd/forward at the recorded values)
     for key, desc, scalar, xv, dv, val, mapped in hist:
         oracle_value(ctx, key, desc, (lambda z, scalar=scalar, dv=dv: scalar(z, dv)), val, xv,
                      [0.0] * len(xv) if mapped else None, None, in_support=True)
+    # the executable Lean model on the recorded current values (one batch)
+    for (key, desc, tokidx, ex, val), out in zip(hmeta, ctx.lean.drive(hlines)):
+        toks = out.split()
+        if toks[0] != "value":
+            ctx.disagree(key, desc, out[:80], val.tolist(), "Lean model refuses where the implementation returned a vector"); continue
+        mg = np.array(decv(toks[tokidx])) + ex
+        if not cmp_vec(mg.tolist(), val.tolist(), 1e-8):
+            ctx.disagree(key, desc, mg.tolist(), val.tolist(), "gradient differs from the Lean model at the point's current value")
